@@ -81,6 +81,8 @@ def c10_task(ts):
         r = sc.Repo(s, "r", ts, init_git=False, ports=False)
         tm = {t["path"]: t for t in ts}
         dot = os.path.join(s.dir, "g.dot")
+        with open(dot, "w") as f:   # a longer file from an earlier rendering is already there
+            f.write("digraph OLD {\n" + "9 [label=\"stale\"];\n" + "9 -> 9;\n" * 200 + "}\n")
         res = r.mr("target", "render", "-f", dot)
         if res.code != 0:
             if has_cycle(tm):
@@ -88,7 +90,7 @@ def c10_task(ts):
             return [("render-failed", "target render failed on an acyclic configuration: %s" % res.err[:200])]
         text = open(dot).read()
         nodes = dict((int(a), b) for a, b in re.findall(r'^(\d+) \[label="(.*)"\];$', text, re.M))
-        edges = set((nodes.get(int(a)), nodes.get(int(b))) for a, b in re.findall(r"^(\d+) -> (\d+);$", text, re.M))
+        edges = set((nodes.get(int(a), "<node %s>" % a), nodes.get(int(b), "<node %s>" % b)) for a, b in re.findall(r"^(\d+) -> (\d+);$", text, re.M))
         edge_lines = re.findall(r"^(\d+) -> (\d+);$", text, re.M)
         v = []
         if sorted(nodes.values()) != sorted(tm):
